@@ -113,11 +113,92 @@ func c19FixTerm(c *c19FixCase, o c19FixObs) (string, bool) {
 
 var c19FixAddressed = map[string]bool{"Patches": true, "PatchesJson6902": true, "PatchesStrategicMerge": true, "Labels": true, "CommonLabels": true}
 
+// c19RewriteLoad: the hand rewrite of the load-time spellings on a decoded file (bases appended to
+// resources, imageTags to images, env to envs) — the harness' own statement of the documented rewrite.
+func c19RewriteLoad(k *types.Kustomization) *types.Kustomization {
+	b, _ := json.Marshal(k)
+	var out types.Kustomization
+	_ = json.Unmarshal(b, &out)
+	out.Resources = append(out.Resources, out.Bases...)
+	out.Bases = nil
+	out.Images = append(out.Images, out.ImageTags...)
+	out.ImageTags = nil
+	for i := range out.ConfigMapGenerator {
+		if e := out.ConfigMapGenerator[i].EnvSource; e != "" {
+			out.ConfigMapGenerator[i].EnvSources = append(out.ConfigMapGenerator[i].EnvSources, e)
+			out.ConfigMapGenerator[i].EnvSource = ""
+		}
+	}
+	for i := range out.SecretGenerator {
+		if e := out.SecretGenerator[i].EnvSource; e != "" {
+			out.SecretGenerator[i].EnvSources = append(out.SecretGenerator[i].EnvSources, e)
+			out.SecretGenerator[i].EnvSource = ""
+		}
+	}
+	return &out
+}
+
+// c19LoadSpellingLaw: a file and its hand-rewritten form must reach the pipeline as the same record
+// (implementation-level, no Coq model involved); when they do not and both `images` and `imageTags` are
+// present, a small deployment with one container per image name is also built both ways.
+func c19LoadSpellingLaw(viol func(law, class, detail string), init []byte) {
+	k, err := c17Unmarshal(init)
+	if err != nil || len(k.HelmChartInflationGenerator) > 0 {
+		return
+	}
+	// typed level: what the loader hands to the pipeline
+	rew := c19RewriteLoad(k)
+	yb, err := yaml.Marshal(rew)
+	if err != nil {
+		return
+	}
+	k2, err := c17FixedOf(yb)
+	if err != nil {
+		return
+	}
+	k1, _ := c17FixedOf(init)
+	if k1 == nil {
+		return
+	}
+	if a, b := c17WholeJSON(k1), c17WholeJSON(k2); a != b {
+		detail := fmt.Sprintf("loader normal form of the file:\n%s\nof its rewritten form:\n%s", a, b)
+		// build level, when the difference is in the image entries: a deployment with one container per
+		// image name, built with the file's images/imageTags and with the rewritten images
+		if len(k.Images) > 0 && len(k.ImageTags) > 0 {
+			names := map[string]bool{}
+			for _, im := range append(append([]types.Image{}, k.Images...), k.ImageTags...) {
+				names[im.Name] = true
+			}
+			var cont strings.Builder
+			for i, n := range c17SortedNames(names) {
+				fmt.Fprintf(&cont, "      - name: c%d\n        image: %s:0\n", i, n)
+			}
+			dep := "apiVersion: apps/v1\nkind: Deployment\nmetadata:\n  name: d\nspec:\n  selector:\n    matchLabels:\n      a: b\n  template:\n    metadata:\n      labels:\n        a: b\n    spec:\n      containers:\n" + cont.String()
+			build := func(kk *types.Kustomization) string {
+				fs := filesys.MakeFsInMemory()
+				_ = fs.WriteFile("/t/d.yaml", []byte(dep))
+				kb, _ := yaml.Marshal(&types.Kustomization{Resources: []string{"d.yaml"}, Images: kk.Images, ImageTags: kk.ImageTags})
+				_ = fs.WriteFile("/t/kustomization.yaml", kb)
+				out, err := c19Build(fs, "/t")
+				if err != nil {
+					return "error: " + err.Error()
+				}
+				return out
+			}
+			if o1, o2 := build(k), build(rew); o1 != o2 {
+				detail += fmt.Sprintf("\nbuild with images+imageTags:\n%s\nbuild with the rewritten images:\n%s", o1, o2)
+			}
+		}
+		viol("load_spelling_equivalence", "deprecated-spelling-loads-differently", detail)
+	}
+}
+
 // laws of `edit fix` on the implementation
 func c19FixLaws(r *Run, c *c19FixCase, o c19FixObs) {
 	viol := func(law, class, detail string) {
 		r.Violation(OracleViolation{Law: law, Class: class, Detail: detail, Replay: map[string]interface{}{"fix": c}})
 	}
+	c19LoadSpellingLaw(viol, []byte(c.Init))
 	wrote := !bytes.Equal(o.after, []byte(c.Init))
 	if o.cls == ClsPanic {
 		viol("no_panic", "panic:edit fix", o.msg)
@@ -246,6 +327,19 @@ spec:
 	}
 	if g.Chance(80) {
 		t.ImageTags = []types.Image{{Name: "nginx", NewTag: g.Pick([]string{"1.2", "1.9"}), NewName: g.Pick([]string{"", "mirror/nginx"})}}
+	}
+	if g.Chance(40) {
+		// chained entries: `images` renames nginx, `imageTags` re-tags the NEW name. The image entries are
+		// applied in list order, so the output depends on imageTags being appended AFTER images by the
+		// load-time rewrite (images ++ imageTags)
+		t.Images = append(t.Images, types.Image{Name: "nginx", NewName: "registry.local/web"})
+		t.ImageTags = []types.Image{{Name: "registry.local/web", NewTag: g.Pick([]string{"9.9", "stable"})}}
+	}
+	if g.Chance(15) {
+		// the other direction: imageTags renames, images re-tags the new name (no effect either way with
+		// the documented order, a visible one if the order were reversed)
+		t.ImageTags = []types.Image{{Name: "busybox", NewName: "registry.local/bb"}}
+		t.Images = append(t.Images, types.Image{Name: "registry.local/bb", NewTag: "7"})
 	}
 	if g.Chance(80) {
 		t.GenName = "gen"
@@ -404,9 +498,28 @@ func c19SpellingLaws(r *Run, t *c19Tree, subsets []map[string]bool) {
 		return
 	}
 	r.Count("build", "reference-ok")
+	// spellings that change the build when toggled alone: a larger subset that differs is attributed to
+	// them (one finding class per responsible spelling, not one per subset)
+	single := map[string]bool{}
+	for _, sp := range c19Spellings {
+		if out, err := t.buildWith(map[string]bool{sp: true}); err != nil || out != ref {
+			single[sp] = true
+		}
+	}
 	for _, dep := range subsets {
 		out, err := t.buildWith(dep)
 		name := c19SubsetName(dep)
+		if len(dep) > 1 {
+			var resp []string
+			for _, sp := range c19Spellings {
+				if dep[sp] && single[sp] {
+					resp = append(resp, sp)
+				}
+			}
+			if len(resp) > 0 {
+				name = strings.Join(resp, "+")
+			}
+		}
 		r.Count("subset_size", fmt.Sprint(len(strings.Split(name, "+"))))
 		r.AddEval("build:"+name+":"+t.render(dep), true)
 		if err != nil {
